@@ -22,7 +22,8 @@ for name in sorted(own):
     if name in notes:
         txt = notes[name]
     orows.append("| %s | %s |" % (name, txt))
-missed_first = [m['id'] for m in metas if 'MISSED' in m['caught_by']]
+missed_first = [m['id'] for m in metas if 'MISSED' in m['caught_by'] or 'missed before' in m['caught_by']]
+not_caught = [m['id'] for m in metas if m['caught_by'].startswith('NOT CAUGHT')]
 out = """### 10.6 Which checks catch which changes
 
 **Independently written changes** (`/verif/seeded/<id>/`: `patch.diff`, the author's demonstration,
@@ -30,12 +31,12 @@ out = """### 10.6 Which checks catch which changes
 (second round: plus one-line descriptions of earlier changes) and a scratch worktree; each was
 confirmed by `tools/intake.sh` in a fresh scratch copy (existing suite passes with it, the demo
 fails with it and passes without it) and evaluated by `tools/trymut.sh` (quick tier, 15-60 s,
-8 workers, scratch copy; `/repo` and `/verif/evidence` untouched).  %d changes, all caught now;
-%d of them only after the strengthening recorded in 10.2a (%s).
+8 workers, scratch copy; `/repo` and `/verif/evidence` untouched).  %d changes, %d caught now;
+%d of them only after the strengthening recorded in 10.2a (%s); not caught: %s.
 
 | id | property | change | caught by |
 |---|---|---|---|
-""" % (len(rows), len(missed_first), ", ".join(missed_first)) + "\n".join(rows) + """
+""" % (len(rows), len(rows) - len(not_caught), len(missed_first), ", ".join(missed_first), ", ".join(not_caught) or "none") + "\n".join(rows) + """
 
 **Own planted changes** (`/verif/mutants/*.diff`, one-line edits aimed at each mechanism the
 properties name; 20 s, 8 workers; raw results in `mutants/RESULTS.txt`):
